@@ -20,7 +20,7 @@ from typing import Any, Callable, Optional
 from autobean_refactor import token_store as ts
 
 TEXTS = ['', 'a', 'bb', '\n', 'x\ny', 'q\n', 'ccc', '\r\n', ' ']
-LFS = [2, 3, 4, 5, 8, 10, 1000]
+LFS = [2, 3, 4, 5, 6, 7, 8, 9, 10, 13, 16, 1000]   # 'all load factors >= 2': odd and even ones (HALF and ONE_HALF round differently)
 
 
 def set_lf(lf: int) -> tuple:
@@ -41,8 +41,8 @@ def _texts(rnd: Any, n: int) -> list[str]:
 
 
 def build_history(rnd: Any, max_ops: int, with_update: bool = True, big: bool = False) -> dict:
-    lf = rnd.choice(LFS[:5] if not big else LFS)
-    base = lf if lf <= 10 else 4
+    lf = rnd.choice(LFS[:8] if not big else LFS)
+    base = lf if lf <= 16 else 4
     n0 = rnd.randint(0, 12 * base) if rnd.randint(0, 99) < 80 else rnd.randint(0, 3)
     case = {'lf': lf, 'init': _texts(rnd, n0), 'ops': []}
     nops = rnd.randint(1, max_ops)
